@@ -25,6 +25,11 @@
 //!   oracle: two DIFFERENT contexts must not seed the coin with the same elements
 //!   (c04.seed.context-collision.<what differs>).
 //!
+//!   fri <layers> <ext> <queries> <domain> <field> <hasher> <blowup> <folding> <remainder> <seed>
+//!       the FRI crate's own entry points (FriProver::build_layers over DefaultProverChannel, FriVerifier::new over
+//!       DefaultVerifierChannel) with the recording coin, on evaluations of a random low-degree polynomial;
+//!       output `P <script> V <script>` as for `run` (seed: `new:`, messages fri<i> rem); same oracles.
+//!
 //! Oracle (independent of the Lean model; sites):
 //!   c04.prover-verifier-mismatch   the two logs differ (kinds, absorbed bytes, values of used challenges)
 //!                                  after deleting the draws the verifier makes between the last FRI
@@ -532,13 +537,13 @@ where
     let plog = log_take();
     // ---- verify with the recording coin
     let acceptable = AcceptableOptions::OptionSet(vec![op.opts.to_options()]);
-    let verify_rec = |p: Proof, vals: Vec<B>| -> (Result<Result<(), VerifierError>, String>, Vec<Rec>) {
+    let verify_acc = |p: Proof, vals: Vec<B>, acc: &AcceptableOptions| -> (Result<Result<(), VerifierError>, String>, Vec<Rec>) {
         log_take();
         let d2 = desc.clone();
-        let acc = &acceptable;
         let r = guarded(move || winter_verifier::verify::<GenericAir<B>, H, RecCoin<H>>(p, GenPub { desc: d2, values: vals }, acc));
         (r, log_take())
     };
+    let verify_rec = |p: Proof, vals: Vec<B>| verify_acc(p, vals, &acceptable);
     let (vres, vlog) = verify_rec(proof.clone(), values.clone());
     match &vres {
         Ok(Ok(())) => {},
@@ -625,6 +630,26 @@ where
             },
         }
     }
+    // ---- other entry points / histories: the proof read back from its bytes gives the same verifier transcript; a
+    // second proof by the same prover object gives the same prover transcript (no state carried over)
+    match guarded(|| Proof::from_bytes(&proof.to_bytes())) {
+        Ok(Ok(p2)) => {
+            let (r2, l2) = verify_rec(p2, values.clone());
+            if l2 != vlog {
+                let k = l2.iter().zip(vlog.iter()).position(|(a, b)| a != b).unwrap_or(l2.len().min(vlog.len()));
+                o.fails.push(("c04.provenance.serialization".into(), format!("verifier transcript of Proof::from_bytes(to_bytes) differs at record {}: {:?} vs {:?}", k, vlog.get(k), l2.get(k))));
+            }
+        },
+        _ => o.fails.push(("c04.harness.proof-roundtrip".into(), "Proof::from_bytes(to_bytes) failed".into())),
+    }
+    if op.seed % 4 == 0 {
+        log_take();
+        let again = guarded(|| prover.prove(GenTrace::<B>::new(&desc, &trace)));
+        let l2 = log_take();
+        if !(l2.len() == plog.len() && l2.iter().zip(plog.iter()).all(|(a, b)| same(a, b))) {
+            o.fails.push(("c04.prover-state-carried-over".into(), "a second prove() on the same prover object and trace gives a different coin transcript".into()));
+        }
+    }
     // ---- tampering probes on the verifier (provenance: each absorbed value is a function of its proof field only)
     if vres.as_ref().map(|r| r.is_ok()).unwrap_or(false) && vtok == expected(c, 'V') {
         let pos_of = |label: &str| -> Option<usize> { vtok.iter().position(|t| t == &format!("r:{}", label)).map(|k| vidx[k]) };
@@ -656,7 +681,7 @@ where
                 }
             }
         };
-        // commitments: flip one bit in each digest
+        // commitments: flip one bit in each digest (first byte and a middle byte), each digest individually
         let cb = proof.commitments.to_bytes();
         let dl = car.digest_len;
         let labels: Vec<String> = {
@@ -672,19 +697,46 @@ where
             l
         };
         for (k, label) in labels.iter().enumerate() {
-            let mut b = cb.clone();
-            b[2 + k * dl] ^= 1;
-            if let Ok(cm) = Commitments::read_from_bytes(&b) {
-                let mut tp = proof.clone();
-                tp.commitments = cm;
-                let e = b[2 + k * dl..2 + (k + 1) * dl].to_vec();
-                probe(&mut o, &format!("commitment.{}", label), label, tp, values.clone(), Some(e));
+            for off in [0, dl / 2] {
+                let mut b = cb.clone();
+                b[2 + k * dl + off] ^= 1;
+                if let Ok(cm) = Commitments::read_from_bytes(&b) {
+                    let mut tp = proof.clone();
+                    tp.commitments = cm;
+                    let e = b[2 + k * dl..2 + (k + 1) * dl].to_vec();
+                    probe(&mut o, &format!("commitment.{}", label), label, tp, values.clone(), Some(e));
+                }
             }
         }
-        // out-of-domain trace states / evaluations: change one element
+        // out-of-domain frame, every sub-block: main current / next row, auxiliary columns, every row of the Lagrange
+        // kernel frame, first and last constraint evaluation: change one element
         let ob = proof.ood_frame.to_bytes();
         if let Some((ts, ls, ev, offs)) = split_ood(&ob) {
-            for (name, label, off) in [("ood-trace-states", "oodt", offs[0] + 1), ("ood-evaluations", "oode", offs[2])] {
+            let eb = E::ELEMENT_BYTES;
+            let n_states = (ts.len() - 1) / eb;
+            let n_lag = (ls.len() - 1) / eb;
+            let n_ev = ev.len() / eb;
+            let main_w = op.desc.width;
+            let mut targets: Vec<(String, &str, usize)> = vec![];
+            let mut state_idx = vec![0usize, 1, 2 * main_w - 2, 2 * main_w - 1];
+            if n_states > 2 * main_w {
+                state_idx.extend([2 * main_w, 2 * main_w + 1, n_states - 2, n_states - 1]);
+            }
+            state_idx.sort_unstable();
+            state_idx.dedup();
+            for i in state_idx.into_iter().filter(|i| *i < n_states) {
+                let block = if i < 2 * main_w { "main" } else { "aux" };
+                targets.push((format!("ood-trace-states.{}.{}", block, if i % 2 == 0 { "current" } else { "next" }), "oodt", offs[0] + 1 + i * eb));
+            }
+            for i in 0..n_lag {
+                targets.push(("ood-lagrange-frame".to_string(), "oodt", offs[1] + 1 + i * eb));
+            }
+            let mut ev_idx = vec![0usize, n_ev.saturating_sub(1)];
+            ev_idx.dedup();
+            for i in ev_idx.into_iter().filter(|i| *i < n_ev) {
+                targets.push(("ood-evaluations".to_string(), "oode", offs[2] + i * eb));
+            }
+            for (name, label, off) in targets {
                 let mut b = ob.clone();
                 b[off] ^= 1;
                 if let (Ok(fr), Some((ts2, ls2, ev2, _))) = (OodFrame::read_from_bytes(&b), split_ood(&b)) {
@@ -702,7 +754,7 @@ where
                     if e.is_some() {
                         let mut tp = proof.clone();
                         tp.ood_frame = fr;
-                        probe(&mut o, name, label, tp, values.clone(), e);
+                        probe(&mut o, &name, label, tp, values.clone(), e);
                     }
                 }
             }
@@ -710,39 +762,58 @@ where
         // FRI remainder polynomial: used by the verifier's last check, not absorbed itself: its commitment is.
         // A changed remainder must either change the transcript before the query positions or be refused by a
         // binding check (commitment mismatch); otherwise the positions do not depend on the remainder used.
+        // Variants: first coefficient changed, last coefficient changed, a zero coefficient appended (the same
+        // polynomial in another encoding; the length prefix is rewritten so that the proof still parses).
         {
             let fb = proof.fri_proof.to_bytes();
             let rl = proof.fri_proof.num_remainder_elements::<E>() * E::ELEMENT_BYTES;
-            if rl > 0 && fb.len() > rl + 1 {
+            if rl > 0 && fb.len() > rl + 3 {
+                let start = fb.len() - 1 - rl;
+                let mut variants: Vec<(&str, Vec<u8>)> = vec![];
                 let mut b = fb.clone();
-                let off = fb.len() - 1 - rl;
-                b[off] ^= 1;
-                if let Ok(fp) = FriProof::read_from_bytes(&b) {
-                    if fp.parse_remainder::<E>().is_ok() {
-                        let mut tp = proof.clone();
-                        tp.fri_proof = fp;
-                        let (r, tlog) = verify_rec(tp, values.clone());
-                        let kind = match &r {
-                            Ok(res) => verr_kind(res),
-                            Err(_) => "panic".into(),
-                        };
-                        let upto = |l: &[Rec]| l.iter().position(|r| matches!(r, Rec::Ints { .. })).map(|k| l[..=k].to_vec());
-                        let unchanged = upto(&tlog).is_some() && upto(&tlog) == upto(&vlog);
-                        if unchanged && kind != "FriVerificationFailed.RemainderCommitmentMismatch" {
-                            o.fails.push((
-                                "c04.unbound.remainder".into(),
-                                format!("the FRI remainder polynomial of the proof was changed (first coefficient): the verifier absorbs the same values and draws the same query positions {:?}, and no binding check refuses it (verdict {}): the positions do not depend on the remainder the verifier evaluates", tlog.iter().find_map(|r| if let Rec::Ints { vals, .. } = r { vals.clone() } else { None }), kind),
-                            ));
+                b[start] ^= 1;
+                variants.push(("first coefficient changed", b));
+                let mut b = fb.clone();
+                b[start + rl - E::ELEMENT_BYTES] ^= 1;
+                variants.push(("last coefficient changed", b));
+                if rl + E::ELEMENT_BYTES <= u16::MAX as usize {
+                    let mut b = fb[..start - 2].to_vec();
+                    b.extend_from_slice(&((rl + E::ELEMENT_BYTES) as u16).to_le_bytes());
+                    b.extend_from_slice(&fb[start..start + rl]);
+                    b.extend(std::iter::repeat(0u8).take(E::ELEMENT_BYTES));
+                    b.push(fb[fb.len() - 1]);
+                    variants.push(("zero coefficient appended", b));
+                }
+                for (what, b) in variants {
+                    if let Ok(fp) = FriProof::read_from_bytes(&b) {
+                        if fp.parse_remainder::<E>().is_ok() {
+                            let mut tp = proof.clone();
+                            tp.fri_proof = fp;
+                            let (r, tlog) = verify_rec(tp, values.clone());
+                            let kind = match &r {
+                                Ok(res) => verr_kind(res),
+                                Err(_) => "panic".into(),
+                            };
+                            let upto = |l: &[Rec]| l.iter().position(|r| matches!(r, Rec::Ints { .. })).map(|k| l[..=k].to_vec());
+                            let unchanged = upto(&tlog).is_some() && upto(&tlog) == upto(&vlog);
+                            if unchanged && kind != "FriVerificationFailed.RemainderCommitmentMismatch" {
+                                o.fails.push((
+                                    "c04.unbound.remainder".into(),
+                                    format!("the FRI remainder polynomial of the proof was changed ({}): the verifier absorbs the same values and draws the same query positions {:?}, and no binding check refuses it (verdict {}): the positions do not depend on the remainder the verifier evaluates", what, tlog.iter().find_map(|r| if let Rec::Ints { vals, .. } = r { vals.clone() } else { None }), kind),
+                                ));
+                            } else if !vlog.starts_with(&tlog) && !unchanged {
+                                o.fails.push(("c04.provenance.remainder".into(), format!("only the remainder polynomial was changed ({}) but the verifier's transcript changed", what)));
+                            }
                         }
                     }
                 }
             }
         }
-        // proof-of-work nonce
-        {
+        // proof-of-work nonce: low bit flipped; nonce + 2^32; nonce + the 64-bit field modulus (the algebraic hashers
+        // split an integer that does not fit into one element)
+        for (what, n2) in [("bit 0", proof.pow_nonce ^ 1), ("+2^32", proof.pow_nonce.wrapping_add(1 << 32)), ("+M64", proof.pow_nonce.wrapping_add(0xFFFF_FFFF_0000_0001)), ("+M62", proof.pow_nonce.wrapping_add(4611624995532046337))] {
             let mut tp = proof.clone();
-            tp.pow_nonce ^= 1;
-            let n2 = tp.pow_nonce;
+            tp.pow_nonce = n2;
             let (r, tlog) = verify_rec(tp, values.clone());
             if let Some(pw) = vlog.iter().position(|r| matches!(r, Rec::Pow { .. })) {
                 if tlog.len() > pw {
@@ -756,23 +827,149 @@ where
                     if !ok_prefix {
                         o.fails.push(("c04.provenance.pow-nonce".into(), "changing the nonce changed an earlier record".into()));
                     } else if !ok_pow || !ok_ints {
-                        o.fails.push(("c04.unbound.pow-nonce".into(), format!("changed nonce {}: verifier records {:?} {:?}", n2, tlog.get(pw), tlog.get(pw + 1))));
+                        o.fails.push(("c04.unbound.pow-nonce".into(), format!("changed nonce ({}) {}: verifier records {:?} {:?}; honest {:?}", what, n2, tlog.get(pw), tlog.get(pw + 1), vlog.get(pw + 1))));
+                    }
+                } else {
+                    o.fails.push(("c04.provenance.pow-nonce".into(), "changing the nonce made the verifier stop before the proof-of-work check".into()));
+                }
+            }
+        }
+        // public inputs: first and last value
+        if !values.is_empty() {
+            let mut idxs = vec![0, values.len() - 1];
+            idxs.dedup();
+            for i in idxs {
+                let mut v2 = values.clone();
+                v2[i] += B::ONE;
+                let (r, tlog) = verify_rec(proof.clone(), v2.clone());
+                let mut want = seed_ctx.clone();
+                want.extend(v2.iter().map(|e| e.canon()));
+                if tlog.first() != Some(&Rec::New(want.clone())) {
+                    o.fails.push(("c04.unbound.public-inputs".into(), format!("changed public input {}: coin created with {:?}, expected {:?}", i, tlog.first(), want)));
+                } else if let (Some(a), Some(b)) = (next_challenge(&tlog, 0), next_challenge(&vlog, 0)) {
+                    if a == b {
+                        o.fails.push(("c04.insensitive.public-inputs".into(), "first challenge unchanged after changing a public input".into()));
                     }
                 }
             }
         }
-        // public inputs
-        if !values.is_empty() {
-            let mut v2 = values.clone();
-            v2[0] += B::ONE;
-            let (r, tlog) = verify_rec(proof.clone(), v2.clone());
-            let mut want = seed_ctx.clone();
-            want.extend(v2.iter().map(|e| e.canon()));
-            if tlog.first() != Some(&Rec::New(want.clone())) {
-                o.fails.push(("c04.unbound.public-inputs".into(), format!("changed first public input: coin created with {:?}, expected {:?}", tlog.first(), want)));
-            } else if let (Some(a), Some(b)) = (next_challenge(&tlog, 0), next_challenge(&vlog, 0)) {
-                if a == b {
-                    o.fails.push(("c04.insensitive.public-inputs".into(), "first challenge unchanged after changing a public input".into()));
+        // proof context: number of queries / grinding factor changed in the serialized context (the option bytes are
+        // its last six: q b g x f r); the verifier is told to accept both option sets. The seed must be the
+        // context elements of the CHANGED context followed by the public inputs.
+        {
+            let xb = proof.context.to_bytes();
+            let n = xb.len();
+            let lde = c[11] as usize;
+            let mut variants: Vec<(&str, OptSpec)> = vec![];
+            let mut o2 = op.opts;
+            o2.queries = if op.opts.queries > 1 { op.opts.queries - 1 } else { 2 };
+            if o2.queries < lde {
+                variants.push(("queries", o2));
+            }
+            let mut o3 = op.opts;
+            o3.grinding = if op.opts.grinding < 32 { op.opts.grinding + 1 } else { 31 };
+            variants.push(("grinding", o3));
+            for (what, ot) in variants {
+                let mut b = xb.clone();
+                b[n - 6] = ot.queries as u8;
+                b[n - 4] = ot.grinding as u8;
+                if let Ok(cx) = winter_air::proof::Context::read_from_bytes(&b) {
+                    let mut tp = proof.clone();
+                    tp.context = cx;
+                    let acc2 = AcceptableOptions::OptionSet(vec![op.opts.to_options(), ot.to_options()]);
+                    let (r, tlog) = verify_acc(tp, values.clone(), &acc2);
+                    let mut want = context_elements(&desc, &ot, op.field);
+                    want.extend_from_slice(&seed_pub);
+                    if tlog.first() != Some(&Rec::New(want.clone())) || Some(&Rec::New(want.clone())) == vlog.first() {
+                        o.fails.push((format!("c04.unbound.context.{}", what), format!("context with changed {}: coin created with {:?}, expected {:?}", what, tlog.first(), want)));
+                    } else if let (Some(a), Some(b)) = (next_challenge(&tlog, 0), next_challenge(&vlog, 0)) {
+                        if a == b {
+                            o.fails.push((format!("c04.insensitive.context.{}", what), "first challenge unchanged after changing the context".into()));
+                        }
+                    }
+                }
+            }
+        }
+        // GKR proof (handed to the AIR's own verifier together with the coin; the library does not absorb it): a
+        // changed or missing GKR proof must not change anything up to the main trace commitment, and must either be
+        // refused or change the transcript after it
+        if let (Some(g), Some(at)) = (proof.gkr_proof.clone(), pos_of("main")) {
+            let mut variants: Vec<(&str, Option<Vec<u8>>)> = vec![("removed", None)];
+            if !g.is_empty() {
+                let mut g2 = g.clone();
+                g2[0] ^= 1;
+                variants.push(("first byte changed", Some(g2)));
+                let mut g3 = g.clone();
+                let k = g3.len() - 1;
+                g3[k] ^= 0x80;
+                variants.push(("last byte changed", Some(g3)));
+            }
+            for (what, gv) in variants {
+                let mut tp = proof.clone();
+                tp.gkr_proof = gv;
+                let (r, tlog) = verify_rec(tp, values.clone());
+                let accepted = matches!(r, Ok(Ok(())));
+                if tlog.len() <= at || tlog[..=at] != vlog[..=at] {
+                    o.fails.push(("c04.provenance.gkr-proof".into(), format!("GKR proof {}: the verifier's transcript changed at or before the main trace commitment", what)));
+                } else if accepted && tlog == vlog {
+                    o.fails.push(("c04.unbound.gkr-proof".into(), format!("GKR proof {}: accepted with an unchanged transcript", what)));
+                }
+            }
+        }
+        // fields that come after the last challenge (or are not messages at all): nothing the verifier absorbs or
+        // draws may depend on them: the transcript must be the honest one, possibly cut short by a rejection
+        {
+            let mut later: Vec<(String, Proof)> = vec![];
+            let mut tp = proof.clone();
+            tp.num_unique_queries = tp.num_unique_queries.wrapping_add(1);
+            later.push(("num-unique-queries".into(), tp));
+            for (si, q) in proof.trace_queries.iter().enumerate() {
+                let mut b = q.to_bytes();
+                if b.len() > 5 {
+                    b[4] ^= 1;
+                    if let Ok(q2) = winter_air::proof::Queries::read_from_bytes(&b) {
+                        let mut tp = proof.clone();
+                        tp.trace_queries[si] = q2;
+                        later.push((format!("trace-queries.{}", si), tp));
+                    }
+                }
+            }
+            {
+                let mut b = proof.constraint_queries.to_bytes();
+                if b.len() > 5 {
+                    b[4] ^= 1;
+                    if let Ok(q2) = winter_air::proof::Queries::read_from_bytes(&b) {
+                        let mut tp = proof.clone();
+                        tp.constraint_queries = q2;
+                        later.push(("constraint-queries".into(), tp));
+                    }
+                }
+            }
+            {
+                let fb = proof.fri_proof.to_bytes();
+                if layers > 0 && fb.len() > 6 {
+                    let mut b = fb.clone();
+                    b[5] ^= 1;
+                    if let Ok(fp) = FriProof::read_from_bytes(&b) {
+                        let mut tp = proof.clone();
+                        tp.fri_proof = fp;
+                        later.push(("fri-layer-values".into(), tp));
+                    }
+                }
+                let mut b = fb.clone();
+                let k = b.len() - 1;
+                b[k] ^= 1;
+                if let Ok(fp) = FriProof::read_from_bytes(&b) {
+                    let mut tp = proof.clone();
+                    tp.fri_proof = fp;
+                    later.push(("fri-num-partitions".into(), tp));
+                }
+            }
+            for (name, tp) in later {
+                let (r, tlog) = verify_rec(tp, values.clone());
+                if !vlog.starts_with(&tlog) {
+                    let k = tlog.iter().zip(vlog.iter()).position(|(a, b)| a != b).unwrap_or(vlog.len());
+                    o.fails.push((format!("c04.provenance.{}", name), format!("only {} was changed (no message of the transcript) but record {} of the verifier log changed: {:?} -> {:?}", name, k, vlog.get(k), tlog.get(k))));
                 }
             }
         }
@@ -867,7 +1064,7 @@ fn parse_ctx(s: &str) -> Option<CtxSpec> {
         && c.ar <= 255
         && (c.aw != 0 || c.ar == 0)
         && (3..=31).contains(&c.log_len)
-        && c.meta.len() <= 64
+        && c.meta.len() <= 200
         && c.opts.accepted()
         && ((1u64 << c.log_len) * c.opts.blowup as u64) < (1u64 << 32);
     if ok {
@@ -987,8 +1184,485 @@ fn gen_ctx_ops(rng: &mut Rng, n: usize, emit: &mut dyn FnMut(String)) {
             emit(format!("ctx {} {} {}", field.name(), ctx_text(&a), ctx_text(&b)));
         }
     }
+    // the limits of every packed field, against its neighbour
+    for field in FieldId::ALL {
+        let base = CtxSpec { mw: 1, aw: 0, ar: 0, log_len: 3, meta: vec![], opts: OptSpec::new(1, 2, 0, 1, 2, 0) };
+        let mut specs: Vec<CtxSpec> = vec![base.clone()];
+        for (mw, aw, ar) in [(255usize, 0usize, 0usize), (254, 0, 0), (1, 254, 255), (1, 254, 0), (128, 127, 1), (127, 128, 255), (2, 1, 1), (1, 1, 2), (1, 2, 1)] {
+            specs.push(CtxSpec { mw, aw, ar, ..base.clone() });
+        }
+        for (log_len, b) in [(30u32, 2usize), (29, 4), (24, 128), (24, 64), (31, 1), (8, 2), (16, 2)] {
+            let mut c = base.clone();
+            c.log_len = log_len;
+            c.opts.blowup = b;
+            specs.push(c);
+        }
+        for (q, g, x, f, r) in [(255usize, 32u32, 3u8, 16usize, 255usize), (254, 31, 2, 8, 127), (1, 1, 1, 4, 1), (2, 0, 2, 2, 0), (1, 2, 1, 2, 0), (1, 0, 2, 1, 0), (16, 0, 1, 2, 1), (1, 0, 1, 2, 16)] {
+            let mut c = base.clone();
+            c.opts = OptSpec::new(q, 2, g, x, f, r);
+            specs.push(c);
+        }
+        let specs: Vec<CtxSpec> = specs.into_iter().filter(|c| parse_ctx(&ctx_text(c)).is_some()).collect();
+        for i in 0..specs.len() {
+            for j in [(i + 1) % specs.len(), (i + 7) % specs.len()] {
+                if specs[i] != specs[j] {
+                    emit(format!("ctx {} {} {}", field.name(), ctx_text(&specs[i]), ctx_text(&specs[j])));
+                }
+            }
+        }
+    }
     emit("ctx f64 1.0.0.3.-.1.2.0.1.2.0".into());
     emit("ctx f64 0.0.0.3.-.1.2.0.1.2.0 1.0.0.3.-.1.2.0.1.2.0".into());
+}
+
+
+/// hand-built descriptions with a prescribed shape: auxiliary segment yes/no, Lagrange kernel yes/no, auxiliary
+/// random elements 0 / > 0, number of public inputs 1 / 2 / many
+fn shape_desc(n: usize, aux: bool, lagrange: bool, rands: bool, pubs: usize) -> AirDesc {
+    let main_assert = match pubs {
+        1 => "s0.0".to_string(),
+        2 => format!("s0.0,s0.{}", n - 1),
+        _ => "q0.0.2".to_string(), // a sequence assertion on every second step: n / 2 public inputs
+    };
+    let mut t = format!("w=1;l={};e=1;j=0;p=;g=S?:+*c0c0k5;t=2:-n0+*c0c0k5;a={}", n, main_assert);
+    if aux {
+        let x = match (lagrange, rands) {
+            (false, true) => "x=1.2.0;h=Ak1:*a0+c0r1;u=2:-b0*a0+c0r1;b=s0.0=k1",
+            (false, false) => "x=1.0.0;h=F:+c0k1;u=1:-a0+c0k1;b=s0.0=+v0k1",
+            (true, true) => "x=2.3.1;h=F:+*r1c0r2;u=1:-a0+*r1c0r2;b=s0.0=+*r1v0r2",
+            (true, false) => "x=2.0.1;h=F:+c0k1;u=1:-a0+c0k1;b=s0.0=+v0k1",
+        };
+        t.push(';');
+        t.push_str(x);
+    }
+    AirDesc::parse(&t).unwrap_or_else(|e| { eprintln!("shape_desc template does not parse: {} ({})", t, e); panic!("template") })
+}
+
+/// a wide description: `width` main columns, the first one constrained, the others free
+fn wide_desc(n: usize, width: usize, aux_width: usize) -> AirDesc {
+    let mut g = vec!["S?:+*c0c0k5".to_string()];
+    for _ in 1..width {
+        g.push("R".into());
+    }
+    let mut t = format!("w={};l={};e=1;j=0;p=;g={};t=2:-n0+*c0c0k5;a=s0.0,s{}.{}", width, n, g.join(","), width - 1, n - 1);
+    if aux_width > 0 {
+        let mut h = vec!["Ak1:*a0+c0r0".to_string()];
+        for j in 1..aux_width {
+            h.push(format!("F:+*r0c{}r1", j % width));
+        }
+        t.push_str(&format!(";x={}.2.0;h={};u=2:-b0*a0+c0r0;b=s0.0=k1", aux_width, h.join(",")));
+    }
+    AirDesc::parse(&t).unwrap_or_else(|e| { eprintln!("wide_desc template does not parse: {} ({})", t, e); panic!("template") })
+}
+
+/// options giving exactly `layers` FRI layers for a trace of `n` rows with folding factor 2 (layers <= log2 n)
+fn opts_with_layers(n: usize, blowup: usize, layers: usize, q: usize, g: u32, x: u8) -> OptSpec {
+    // layers = 0: remainder degree n - 1 (lde == (r + 1) * blowup exactly); k layers: r + 1 = n / 2^k
+    let r = (n >> layers).max(1) - 1;
+    OptSpec::new(q, blowup, g, x, 2, r)
+}
+
+/// THE PRODUCT required in every run: (aux, Lagrange, aux rands) shape x FRI layers {0, 1, max} x grinding {0, > 0}
+/// x extension degree, over rotating fields / hashers / numbers of public inputs
+fn product_ops(rng: &mut Rng, emit: &mut dyn FnMut(String)) {
+    let shapes = [(false, false, false), (true, false, false), (true, false, true), (true, true, false), (true, true, true)];
+    let mut k = 0usize;
+    for (aux, lag, rands) in shapes {
+        for layer_class in 0..3 {
+            for g in [0u32, 3] {
+                for x in 1..=3u8 {
+                    let fields: Vec<FieldId> = FieldId::ALL.into_iter().filter(|f| f.supports_ext(x)).collect();
+                    let field = fields[k % fields.len()];
+                    let hashes = HashId::for_field(field);
+                    let hash = hashes[(k / 3) % hashes.len()];
+                    let n = [8usize, 16, 32][k % 3];
+                    let layers = match layer_class {
+                        0 => 0,
+                        1 => 1,
+                        _ => n.trailing_zeros() as usize,
+                    };
+                    let d = shape_desc(n, aux, lag, rands, [1, 2, 3][(k / 2) % 3]);
+                    let b = [2usize, 4, 8][(k / 5) % 3].max(d.min_blowup());
+                    let o = opts_with_layers(n, b, layers, 1 + k % 7, g, x);
+                    emit(run_line(field, hash, &o, rng.u64() % 1_000_000, &d));
+                    k += 1;
+                }
+            }
+        }
+    }
+}
+
+/// boundary values of the comparisons the anchored code makes
+fn boundary_ops(rng: &mut Rng, tier: Tier, emit: &mut dyn FnMut(String)) {
+    let f64b = (FieldId::F64, HashId::Blake3_256);
+    // number of queries against the LDE size (draw_integers: num_values < domain_size) and the u8 limit
+    for (n, b, q) in [(8usize, 2usize, 15usize), (8, 2, 14), (8, 2, 1), (8, 32, 255), (16, 32, 255), (64, 4, 255), (64, 4, 254)] {
+        let d = shape_desc(n, q % 2 == 0, false, true, 1);
+        emit(run_line(f64b.0, f64b.1, &OptSpec::new(q, b, 0, 1, 4, 7), rng.u64() % 1_000_000, &d));
+    }
+    // FRI schedule on and around domain == (remainder + 1) * blowup, for every folding factor
+    for f in [2usize, 4, 8, 16] {
+        for (n, r) in [(16usize, 15usize), (16, 7), (16, 31), (32, 15), (64, 3), (64, 0), (256, 0), (256, 255), (256, 127)] {
+            let b = 4;
+            if !fri_well_formed(n * b, b, f, r) {
+                continue;
+            }
+            let field = *rng.pick(&FieldId::ALL);
+            let hash = *rng.pick(&HashId::for_field(field));
+            let d = shape_desc(n, rng.chance(1, 2), rng.chance(1, 2), rng.chance(1, 2), 1 + rng.below(3) as usize);
+            let x = if field == FieldId::F128 { 1 + rng.below(2) as u8 } else { 1 + rng.below(3) as u8 };
+            emit(run_line(field, hash, &OptSpec::new(3, b, rng.below(3) as u32, x, f, r), rng.u64() % 1_000_000, &d));
+        }
+    }
+    // grinding 0, 1, ... 16 with every hasher family (the nonce goes through merge_with_int of the real hashers)
+    for g in 0..=16u32 {
+        for (field, hash) in [(FieldId::F64, HashId::Rp64_256), (FieldId::F64, HashId::RpJive64_256), (FieldId::F62, HashId::Rp62_248), (FieldId::F128, HashId::Sha3_256), (FieldId::F62, HashId::Blake3_192)] {
+            if g > 12 && hash != HashId::Blake3_192 && tier == Tier::Quick && g % 2 == 1 {
+                continue;
+            }
+            let d = shape_desc(8, g % 2 == 1, g % 4 == 3, g % 3 != 0, 1);
+            emit(run_line(field, hash, &OptSpec::new(2, 4, g, 1 + (g % 2) as u8, 2, 3), rng.u64() % 1_000_000, &d));
+        }
+    }
+    // widths: 1, 2, 254 + 1 auxiliary, 255 columns; auxiliary wider than main and main wider than auxiliary
+    for (w, aw) in [(1usize, 0usize), (2, 0), (255, 0), (254, 1), (1, 254), (3, 7), (7, 3), (100, 100)] {
+        let d = wide_desc(8, w, aw);
+        let field = *rng.pick(&[FieldId::F64, FieldId::F128]);
+        emit(run_line(field, HashId::Blake3_256, &OptSpec::new(2, 2, 0, 1 + (w % 2) as u8, 2, 1), rng.u64() % 1_000_000, &d));
+    }
+    // public inputs: 1, 2, n / 2 values; 256 and 512 values (beyond 2^8 seed elements)
+    for (n, pubs) in [(8usize, 1usize), (8, 2), (8, 3), (512, 3), (1024, 3)] {
+        let d = shape_desc(n, n == 8, false, true, pubs);
+        emit(run_line(FieldId::F64, HashId::Rp64_256, &OptSpec::new(4, 2, 0, 2, 4, 31), rng.u64() % 1_000_000, &d));
+    }
+    // degenerate data: the all-zero trace (public inputs 0), constant columns
+    for t in [
+        "w=1;l=8;e=1;j=0;p=;g=S0:*c0c0;t=2:-n0*c0c0;a=s0.0",
+        "w=2;l=8;e=1;j=0;p=;g=K0,K1;t=1:-n0c0,1:-n1c1;a=s0.0,s1.7",
+        "w=2;l=16;e=1;j=0;p=;g=S0:c1,S0:+c0c1;t=1:-n0c1,1:-n1+c0c1;a=s0.0,s1.15;x=1.1.0;h=Ak1:*a0+c0r0;u=2:-b0*a0+c0r0;b=s0.0=k1",
+    ] {
+        if let Ok(d) = AirDesc::parse(t) {
+            for x in 1..=2u8 {
+                emit(run_line(FieldId::F64, HashId::Blake3_256, &OptSpec::new(3, 4, 1, x, 2, 1), rng.u64() % 1_000_000, &d));
+            }
+        }
+    }
+}
+
+/// metadata of every length class relative to the chunk size, for all three fields, against: one more zero byte,
+/// zero bytes up to the next chunk boundary and beyond, a changed byte in every chunk, structured contents
+fn ctx_meta_ops(rng: &mut Rng, emit: &mut dyn FnMut(String)) {
+    for field in FieldId::ALL {
+        let chunk = if field == FieldId::F128 { 15 } else { 7 };
+        for len in [0usize, 1, chunk - 1, chunk, chunk + 1, 2 * chunk - 1, 2 * chunk, 2 * chunk + 1, 5 * chunk + 3] {
+            for content in 0..4 {
+                let meta: Vec<u8> = match content {
+                    0 => rng.bytes(len).into_iter().map(|b| b | 1).collect(), // no zero byte
+                    1 => vec![0u8; len],                                        // all zero
+                    2 => (0..len).map(|i| if i % 2 == 0 { 0xff } else { 0 }).collect(), // alternating, ends in 0 or ff
+                    _ => (0..len).map(|i| if i + 1 == len { 7 } else { 0 }).collect(), // a single non-zero byte at the end
+                };
+                let mut a = random_ctx(rng);
+                a.meta = meta.clone();
+                let mut variants: Vec<Vec<u8>> = vec![];
+                for extra in [1usize, 2, chunk - 1, chunk, chunk + 1] {
+                    let mut m = meta.clone();
+                    m.extend(std::iter::repeat(0u8).take(extra));
+                    variants.push(m);
+                }
+                if len > 0 {
+                    for pos in [0, len / 2, len - 1] {
+                        let mut m = meta.clone();
+                        m[pos] ^= 0x10;
+                        variants.push(m);
+                    }
+                    variants.push(meta[..len - 1].to_vec());
+                    let mut m = meta.clone();
+                    m.rotate_left(1);
+                    variants.push(m);
+                }
+                let mut m = meta.clone();
+                m.push(1);
+                variants.push(m);
+                for m in variants {
+                    if m == meta {
+                        continue;
+                    }
+                    let mut b = a.clone();
+                    b.meta = m;
+                    emit(format!("ctx {} {} {}", field.name(), ctx_text(&a), ctx_text(&b)));
+                }
+            }
+        }
+    }
+}
+
+
+// ==================================================================================== fri op
+struct FriOp {
+    layers: usize,
+    ext: u8,
+    queries: usize,
+    domain: usize,
+    field: FieldId,
+    hash: HashId,
+    blowup: usize,
+    folding: usize,
+    remainder: usize,
+    seed: u64,
+}
+
+fn parse_fri(t: &[&str]) -> Option<FriOp> {
+    if t.len() != 10 {
+        return None;
+    }
+    let num = |i: usize| t[i].parse::<u64>().ok().filter(|v| *v <= 1 << 24);
+    let op = FriOp {
+        layers: num(0)? as usize,
+        ext: num(1)? as u8,
+        queries: num(2)? as usize,
+        domain: num(3)? as usize,
+        field: FieldId::parse(t[4])?,
+        hash: HashId::parse(t[5])?,
+        blowup: num(6)? as usize,
+        folding: num(7)? as usize,
+        remainder: num(8)? as usize,
+        seed: t[9].parse::<u64>().ok()?,
+    };
+    let ok = op.domain.is_power_of_two()
+        && (8..=1 << 14).contains(&op.domain)
+        && op.blowup.is_power_of_two()
+        && (2..=128).contains(&op.blowup)
+        && [2, 4, 8, 16].contains(&op.folding)
+        && op.remainder <= 255
+        && (op.remainder + 1).is_power_of_two()
+        && op.domain / op.blowup >= 2
+        && fri_well_formed(op.domain, op.blowup, op.folding, op.remainder)
+        && op.layers == fri_layers(op.domain, op.blowup, op.folding, op.remainder)
+        && (1..op.domain).contains(&op.queries)
+        && op.queries <= 255
+        && op.hash.compatible(op.field)
+        && (1..=3).contains(&op.ext)
+        && op.field.supports_ext(op.ext);
+    if ok {
+        Some(op)
+    } else {
+        None
+    }
+}
+
+fn fri_line(field: FieldId, hash: HashId, ext: u8, q: usize, domain: usize, blowup: usize, folding: usize, remainder: usize, seed: u64) -> String {
+    format!("fri {} {} {} {} {} {} {} {} {} {}", fri_layers(domain, blowup, folding, remainder), ext, q, domain, field.name(), hash.name(), blowup, folding, remainder, seed)
+}
+
+fn fri_g<B, E, H>(op: &FriOp) -> Outcome
+where
+    B: GField,
+    E: FieldElement<BaseField = B>,
+    H: ElementHasher<BaseField = B> + Send + Sync,
+{
+    use winter_fri::{DefaultProverChannel, DefaultVerifierChannel, FriOptions, FriProver, FriVerifier};
+    let mut o = Outcome::default();
+    let mut rng = Rng::new(op.seed);
+    let d = op.domain / op.blowup;
+    // a random polynomial of degree < d (sometimes with zero high coefficients), evaluated over offset * <g>
+    let mut coeffs: Vec<E> = (0..d)
+        .map(|_| {
+            let cs: Vec<B> = (0..E::EXTENSION_DEGREE).map(|_| B::from_word(rng.u128() % B::MOD)).collect();
+            E::slice_from_base_elements(&cs)[0]
+        })
+        .collect();
+    if op.seed % 5 == 0 {
+        let k = d / 2;
+        for c in coeffs.iter_mut().skip(k.max(1)) {
+            *c = E::ZERO;
+        }
+    }
+    let options = FriOptions::new(op.blowup, op.folding, op.remainder);
+    let g = B::get_root_of_unity(op.domain.trailing_zeros());
+    let offset = options.domain_offset::<B>();
+    let mut x = offset;
+    let mut evals: Vec<E> = Vec::with_capacity(op.domain);
+    for _ in 0..op.domain {
+        evals.push(winter_math::polynom::eval(&coeffs, E::from(x)));
+        x *= g;
+    }
+    // ---- prover
+    log_take();
+    let mut channel = DefaultProverChannel::<E, H, RecCoin<H>>::new(op.domain, op.queries);
+    let mut prover = FriProver::<B, E, DefaultProverChannel<E, H, RecCoin<H>>, H>::new(options.clone());
+    prover.build_layers(&mut channel, evals.clone());
+    let positions = channel.draw_query_positions(0);
+    let plog = log_take();
+    let proof = prover.build_proof(&positions);
+    let commitments: Vec<H::Digest> = channel.layer_commitments().to_vec();
+    // ---- verifier
+    let run_verifier = |proof: FriProof, commitments: Vec<H::Digest>| -> (String, Vec<Rec>) {
+        log_take();
+        let r = guarded(|| -> Result<(), String> {
+            let mut coin = <RecCoin<H> as RandomCoin>::new(&[]);
+            let mut vch = DefaultVerifierChannel::<E, H>::new(proof, commitments, op.domain, op.folding).map_err(|e| format!("channel:{:?}", e))?;
+            let verifier = FriVerifier::new(&mut vch, &mut coin, options.clone(), d - 1).map_err(|e| format!("{:?}", e))?;
+            let pos = coin.draw_integers(op.queries, op.domain, 0).map_err(|e| format!("{:?}", e))?;
+            let qe: Vec<E> = pos.iter().map(|p| evals[*p]).collect();
+            verifier.verify(&mut vch, &qe, &pos).map_err(|e| format!("{:?}", e))
+        });
+        let verdict = match r {
+            Ok(Ok(())) => "ok".to_string(),
+            Ok(Err(e)) => e.split(|c: char| !c.is_alphanumeric() && c != ':').next().unwrap_or("err").to_string(),
+            Err(_) => "panic".to_string(),
+        };
+        (verdict, log_take())
+    };
+    let (verdict, vlog) = run_verifier(proof.clone(), commitments.clone());
+    if verdict != "ok" {
+        o.fails.push(("c04.harness.fri-honest-proof-rejected".into(), verdict.clone()));
+    }
+    // ---- labels: the commitments the prover handed over, in order
+    let mut msgs: Vec<(String, Vec<u8>)> = vec![];
+    for (i, c) in commitments.iter().enumerate() {
+        msgs.push((if i + 1 == commitments.len() { "rem".to_string() } else { format!("fri{}", i) }, c.to_bytes()));
+    }
+    let remainder_hash = proof.parse_remainder::<E>().ok().map(|r| H::hash_elements(&r).to_bytes());
+    let car = Carried { msgs, remainder_hash: remainder_hash.clone(), digest_len: 0 };
+    let (ptok, _) = canon_log(&plog, &car, &[], &[]);
+    let (vtok, vidx) = canon_log(&vlog, &car, &[], &[]);
+    let fix = |t: Vec<String>| -> Vec<String> { t.into_iter().map(|x| if x == "new:ctx+pub" { "new:".to_string() } else { x }).collect() };
+    let (ptok, vtok) = (fix(ptok), fix(vtok));
+    o.out = format!("P {} V {}", ptok.join(","), vtok.join(","));
+    // protocol order of the FRI commit phase
+    let exp = |side: char| -> Vec<String> {
+        let mut t = vec!["new:".to_string()];
+        for i in 0..op.layers {
+            t.push(format!("r:fri{}", i));
+            t.push(format!("d{}x1", op.ext));
+        }
+        t.push("r:rem".into());
+        if side == 'V' {
+            t.push(format!("d{}x1", op.ext));
+        }
+        t.push("nonce".into());
+        t.push(format!("ints:{}:{}", op.queries, op.domain));
+        t
+    };
+    judge_order(&mut o, 'P', &ptok, &exp('P'), "");
+    judge_order(&mut o, 'V', &vtok, &exp('V'), "");
+    if commitments.len() != op.layers + 1 {
+        o.fails.push(("c04.order.P".into(), format!("{} commitments for {} layers", commitments.len(), op.layers)));
+    }
+    if remainder_hash.as_ref() != commitments.last().map(|c| c.to_bytes()).as_ref() {
+        o.fails.push(("c04.remainder-commitment".into(), "the last FRI commitment is not the hash of the remainder polynomial".into()));
+    }
+    // prover vs verifier after deleting the verifier's draw between the last commitment and the positions
+    let mut v2 = vlog.clone();
+    if let Some(pw) = v2.iter().position(|r| matches!(r, Rec::Ints { .. })) {
+        let mut k = pw;
+        while k > 0 && matches!(v2[k - 1], Rec::Draw { .. }) {
+            k -= 1;
+        }
+        v2.drain(k..pw);
+    }
+    if plog != v2 {
+        let k = plog.iter().zip(v2.iter()).position(|(a, b)| a != b).unwrap_or(plog.len().min(v2.len()));
+        o.fails.push(("c04.prover-verifier-mismatch".into(), format!("fri: record {}: prover {:?} verifier {:?}", k, plog.get(k), v2.get(k))));
+    }
+    // probes: each commitment individually; the remainder polynomial
+    if verdict == "ok" && vtok == exp('V') {
+        for (k, c) in commitments.iter().enumerate() {
+            let mut b = c.to_bytes();
+            b[0] ^= 1;
+            if let Ok(c2) = H::Digest::read_from_bytes(&b) {
+                let mut cs = commitments.clone();
+                cs[k] = c2;
+                let (vd, tlog) = run_verifier(proof.clone(), cs);
+                let at = vidx[vtok.iter().position(|t| *t == format!("r:{}", car.msgs[k].0)).unwrap()];
+                if tlog.len() > at {
+                    if tlog[..at] != vlog[..at] {
+                        o.fails.push((format!("c04.provenance.commitment.{}", car.msgs[k].0), "fri: an earlier record changed".into()));
+                    } else if tlog[at] != Rec::Reseed(b.clone()) {
+                        o.fails.push((format!("c04.unbound.commitment.{}", car.msgs[k].0), format!("fri: after changing the commitment the verifier absorbs {:?}", tlog[at])));
+                    } else if let (Some(a), Some(bb)) = (next_challenge(&tlog, at), next_challenge(&vlog, at)) {
+                        if a == bb {
+                            o.fails.push((format!("c04.insensitive.commitment.{}", car.msgs[k].0), "fri: next challenge unchanged".into()));
+                        }
+                    }
+                }
+            }
+        }
+        let fb = proof.to_bytes();
+        let rl = proof.num_remainder_elements::<E>() * E::ELEMENT_BYTES;
+        if rl > 0 && fb.len() > rl + 3 {
+            let start = fb.len() - 1 - rl;
+            for off in [start, start + rl - E::ELEMENT_BYTES] {
+                let mut b = fb.clone();
+                b[off] ^= 1;
+                if let Ok(fp) = FriProof::read_from_bytes(&b) {
+                    if fp.parse_remainder::<E>().is_ok() {
+                        let (vd, tlog) = run_verifier(fp, commitments.clone());
+                        if tlog == vlog && vd != "RemainderCommitmentMismatch" {
+                            o.fails.push(("c04.unbound.remainder".into(), format!("fri: the remainder polynomial was changed; same transcript and positions, verdict {}", vd)));
+                        }
+                    }
+                }
+            }
+        }
+    }
+    o
+}
+
+fn exec_fri(t: &[&str]) -> Outcome {
+    let op = match parse_fri(t) {
+        Some(op) => op,
+        None => return Outcome::ok("bad-op"),
+    };
+    let x = op.ext;
+    let op = &op;
+    match (op.field, op.hash) {
+        (FieldId::F62, HashId::Blake3_256) => by_ext!(x, f62::BaseElement, Blake3_256<f62::BaseElement>, fri_g, (op)),
+        (FieldId::F62, HashId::Blake3_192) => by_ext!(x, f62::BaseElement, Blake3_192<f62::BaseElement>, fri_g, (op)),
+        (FieldId::F62, HashId::Sha3_256) => by_ext!(x, f62::BaseElement, Sha3_256<f62::BaseElement>, fri_g, (op)),
+        (FieldId::F62, HashId::Rp62_248) => by_ext!(x, f62::BaseElement, Rp62_248, fri_g, (op)),
+        (FieldId::F64, HashId::Blake3_256) => by_ext!(x, f64::BaseElement, Blake3_256<f64::BaseElement>, fri_g, (op)),
+        (FieldId::F64, HashId::Blake3_192) => by_ext!(x, f64::BaseElement, Blake3_192<f64::BaseElement>, fri_g, (op)),
+        (FieldId::F64, HashId::Sha3_256) => by_ext!(x, f64::BaseElement, Sha3_256<f64::BaseElement>, fri_g, (op)),
+        (FieldId::F64, HashId::Rp64_256) => by_ext!(x, f64::BaseElement, Rp64_256, fri_g, (op)),
+        (FieldId::F64, HashId::RpJive64_256) => by_ext!(x, f64::BaseElement, RpJive64_256, fri_g, (op)),
+        (FieldId::F128, HashId::Blake3_256) => by_ext!(x, f128::BaseElement, Blake3_256<f128::BaseElement>, fri_g, (op)),
+        (FieldId::F128, HashId::Blake3_192) => by_ext!(x, f128::BaseElement, Blake3_192<f128::BaseElement>, fri_g, (op)),
+        (FieldId::F128, HashId::Sha3_256) => by_ext!(x, f128::BaseElement, Sha3_256<f128::BaseElement>, fri_g, (op)),
+        _ => Outcome::ok("bad-op"),
+    }
+}
+
+/// FRI-only ops: every folding factor, 0 / 1 / max layers, boundary remainder sizes, every hasher family
+fn gen_fri_ops(rng: &mut Rng, n: usize, emit: &mut dyn FnMut(String)) {
+    for f in [2usize, 4, 8, 16] {
+        for (log_dom, b, r) in [(4u32, 2usize, 7usize), (4, 2, 3), (4, 2, 0), (5, 4, 7), (6, 8, 0), (8, 4, 0), (8, 4, 63), (8, 4, 31), (9, 2, 255), (10, 2, 1)] {
+            let dom = 1usize << log_dom;
+            if dom / b < 2 || !fri_well_formed(dom, b, f, r) {
+                continue;
+            }
+            let field = *rng.pick(&FieldId::ALL);
+            let hash = *rng.pick(&HashId::for_field(field));
+            let exts: Vec<u8> = (1..=3u8).filter(|x| field.supports_ext(*x)).collect();
+            emit(fri_line(field, hash, *rng.pick(&exts), rng.range(1, 12) as usize, dom, b, f, r, rng.u64() % 1_000_000));
+        }
+    }
+    for _ in 0..n {
+        let field = *rng.pick(&FieldId::ALL);
+        let hash = *rng.pick(&HashId::for_field(field));
+        let exts: Vec<u8> = (1..=3u8).filter(|x| field.supports_ext(*x)).collect();
+        let dom = 1usize << rng.range(3, 9);
+        let b = *rng.pick(&[2usize, 4, 8, 16]);
+        let f = *rng.pick(&[2usize, 4, 8, 16]);
+        let r = (1usize << rng.below(9)) - 1;
+        if dom / b < 2 || !fri_well_formed(dom, b, f, r) {
+            continue;
+        }
+        let q = rng.range(1, (dom - 1).min(20) as u64) as usize;
+        emit(fri_line(field, hash, *rng.pick(&exts), q, dom, b, f, r, rng.u64() % 1_000_000));
+    }
+    emit("fri 1 1 1 8".into());
 }
 
 // ==================================================================================== generator
@@ -1043,6 +1717,8 @@ fn budget(rng: &mut Rng, i: usize, tier: Tier) -> Budget {
 }
 
 fn gen_ops(rng: &mut Rng, tier: Tier, n: usize, emit: &mut dyn FnMut(String)) {
+    product_ops(rng, emit);
+    boundary_ops(rng, tier, emit);
     // boundary classes: every hasher x field x extension; FRI schedules with 0, 1, …, max layers
     for field in FieldId::ALL {
         for hash in HashId::for_field(field) {
@@ -1109,9 +1785,21 @@ impl Prop for P {
     }
 
     fn gen(&self, rng: &mut Rng, tier: Tier, n: usize, emit: &mut dyn FnMut(String)) {
-        let n = default_n(tier, 2500, 60000, n);
-        gen_ops(rng, tier, n, emit);
-        gen_ctx_ops(rng, n, emit);
+        let n = default_n(tier, 2500, 40000, n);
+        // collect, then spread the expensive boundary cases over the workers (the supervisor hands out contiguous
+        // slices of the op file): a deterministic shuffle
+        let mut lines: Vec<String> = vec![];
+        gen_ops(rng, tier, n, &mut |l| lines.push(l));
+        ctx_meta_ops(rng, &mut |l| lines.push(l));
+        gen_ctx_ops(rng, n, &mut |l| lines.push(l));
+        gen_fri_ops(rng, n / 4, &mut |l| lines.push(l));
+        for i in (1..lines.len()).rev() {
+            let j = rng.below(i as u64 + 1) as usize;
+            lines.swap(i, j);
+        }
+        for l in lines {
+            emit(l);
+        }
     }
 
     fn exec(&self, line: &str) -> Outcome {
@@ -1119,6 +1807,7 @@ impl Prop for P {
         match t.first().copied() {
             Some("run") => exec_run(&t[1..]),
             Some("ctx") => exec_ctx(&t[1..]),
+            Some("fri") => exec_fri(&t[1..]),
             _ => Outcome::ok("bad-op"),
         }
     }
@@ -1128,21 +1817,25 @@ impl Prop for P {
     }
 
     fn nontrivial(&self, _line: &str, out: &str) -> bool {
-        out.starts_with("P ") || (_line.starts_with("ctx") && out != "bad-op")
+        out.starts_with("P ") || (_line.starts_with("ctx") && out != "bad-op" && out != "panic")
     }
 
     fn class(&self, line: &str, out: &str) -> String {
         let t: Vec<&str> = line.split(' ').collect();
         if t.first() == Some(&"run") && t.len() >= 19 {
-            let seg = match (t[1], t[2]) {
-                ("0", _) => "single",
-                (_, "0") => "aux",
+            let seg = match (t[1], t[2], t[4]) {
+                ("0", _, _) => "single",
+                (_, "0", "0") => "aux-norands",
+                (_, "0", _) => "aux",
+                (_, _, "0") => "aux-norands+lagrange",
                 _ => "aux+lagrange",
             };
             let g = t[14].parse::<u32>().unwrap_or(0);
             let gc = if g == 0 { "g0" } else if g <= 8 { "g1-8" } else { "g9-16" };
             let verdict = if out.starts_with("P ") { "ok" } else { out.split(' ').next().unwrap_or("") };
             format!("run.{}.x{}.layers{}.{}:{}", seg, t[13], t[10], gc, verdict)
+        } else if t.first() == Some(&"fri") && out.starts_with("P ") && t.len() >= 9 {
+            format!("fri.x{}.layers{}.fold{}:ok", t[2], t[1], t[8])
         } else if t.first() == Some(&"ctx") && out != "bad-op" && out != "panic" {
             let mut p = out.split(' ');
             let same = p.next() == p.next();
@@ -1153,11 +1846,11 @@ impl Prop for P {
     }
 
     fn rule(&self) -> &'static str {
-        "distinct op lines for which a proof was generated and verified with the recording coin (output starts with `P `): one (description, trace seed, options, field, hasher) tuple each, its prover log and verifier log compared with each other, with the values recomputed from the proof object, with the protocol order, and (by the check) with the Lean scripts; plus the tampering probes on the verifier; a ctx op is one pair of proof contexts pushed through Context::to_elements and the Lean model"
+        "distinct op lines for which a proof was generated and verified with the recording coin (output starts with `P `): one (description, trace seed, options, field, hasher) tuple each, its prover log and verifier log compared with each other, with the values recomputed from the proof object, with the protocol order, and (by the check) with the Lean scripts; plus the tampering probes on the verifier; a ctx op is one pair of proof contexts pushed through Context::to_elements and the Lean model; a fri op is one FRI commit phase through the FRI crate's own channels"
     }
 
     fn panic_site(&self, line: &str) -> Option<String> {
-        if line.starts_with("run") || line.starts_with("ctx") {
+        if line.starts_with("run") || line.starts_with("ctx") || line.starts_with("fri") {
             Some("c04.harness.panic".into())
         } else {
             None
